@@ -90,6 +90,9 @@ fn alphabet() -> Vec<Tpl> {
         tpl("a = (a = 1) + a", Some("a"), &["a", "a"], &["a"]),
         tpl("(() => (b = 1))()", None, &[], &["b"]),
         tpl("f = () => do {\n a = a + 1\n return a\n}", Some("f"), &["f"], &["a", "f"]),
+        // parameters named like the reserved top-level name `inputs` (required, optional, rest)
+        tpl("((inputs) => inputs + 1)(5)", None, &[], &[]),
+        tpl("((q, inputs?) => [q, inputs])(1)", None, &[], &[]),
         // a do-block that uses an outer function and then shadows its name (directly and through a closure made in the block)
         tpl("c = do {\n t = f(1)\n f = x => x * 1000 + 7\n return f(2)\n}", Some("c"), &["c"], &["c", "f"]),
         tpl("c = do {\n t = f(1)\n f = x => x * 1000 + 7\n return (y => f(y))(3)\n}", Some("c"), &["c"], &["c", "f"]),
@@ -177,7 +180,9 @@ impl<'a> Monitor<'a> {
         let before = env_map(self.sess);
         let outer_bound_before = t.outer_target.as_ref().map(|n| before.contains_key(n)).unwrap_or(false);
         // templates that first use the outer `f` and then shadow it: they must succeed whenever `f(1)` does
-        let must_succeed = t.src.starts_with("c = do {\n t = f(1)\n f = ") && !outer_bound_before && matches!(self.sess.eval("f(1)"), Out::Ok(_));
+        let must_succeed = (t.src.starts_with("c = do {\n t = f(1)\n f = ") && !outer_bound_before && matches!(self.sess.eval("f(1)"), Out::Ok(_)))
+            || t.src.starts_with("((inputs) =>")
+            || t.src.starts_with("((q, inputs?) =>");
         verif_hooks::take_heap_muts();
         verif_hooks::set_recording(true);
         let res = self.sess.run(&t.src, false);
@@ -370,6 +375,8 @@ impl<'a> Monitor<'a> {
                 "a = do {\n a = 1\n return a\n}" => Some(RVal::num(1.0)),
                 "(x => (b = x))(9)" => Some(RVal::num(9.0)),
                 "do {\n inputs = 5\n return inputs\n}" => Some(RVal::num(5.0)),
+                "((inputs) => inputs + 1)(5)" => Some(RVal::num(6.0)),
+                "((q, inputs?) => [q, inputs])(1)" => Some(RVal::List(vec![RVal::num(1.0), RVal::Null])),
                 "c = do {\n t = f(1)\n f = x => x * 1000 + 7\n return f(2)\n}" => Some(RVal::num(2007.0)),
                 "c = do {\n t = f(1)\n f = x => x * 1000 + 7\n return (y => f(y))(3)\n}" => Some(RVal::num(3007.0)),
                 _ => None,
